@@ -61,7 +61,31 @@ def run_standard(mod, tier: str) -> int:
     run.prep = framework.prepare(modules, theorems, with_dtypes=getattr(mod, "NEEDS_DTYPES", True))
     run.check_obligations(modules, theorems, getattr(mod, "GENERATED", None))
     if hasattr(mod, "custom"):
-        mod.custom(run, tier)
+        try:
+            mod.custom(run, tier)
+        except Exception as e:  # noqa: BLE001
+            # An observation family stopped with an exception it did not expect.  If the exception was raised INSIDE the package under
+            # test (a frame of the traceback lies in it) the family's input is a failing input: on the unchanged tree every family runs
+            # to its end.  Anything else is a defect of the harness and must stay one (exit 2).
+            import traceback
+
+            import impl as impl_mod
+
+            pkg = os.path.dirname(os.path.abspath(impl_mod.dltype.__file__))
+            frames = traceback.extract_tb(e.__traceback__)
+            inside = [f for f in frames if os.path.abspath(f.filename).startswith(pkg + os.sep)]
+            if not inside:
+                raise
+            outer = [f for f in frames if not os.path.abspath(f.filename).startswith(pkg + os.sep)][-1]
+            where = f"{os.path.relpath(inside[-1].filename, os.path.dirname(pkg))}:{inside[-1].lineno}"
+            run.n_cases += 1
+            run.findings.append(Finding(
+                "failing-input",
+                f"an observation family of this check stopped: {type(e).__name__}: {str(e)[:160]} raised inside the package at {where} "
+                f"({inside[-1].line}); the harness statement that reached it: {os.path.basename(outer.filename)}:{outer.lineno} `{outer.line}` "
+                "(on the unchanged tree every family runs to its end)",
+                framework.Case(f"FAMILY\t{os.path.basename(outer.filename)}:{outer.lineno}\t{outer.line}", "family-stopped"),
+                f"{type(e).__name__}: {str(e)[:200]}", "", "no exception"))
     if hasattr(mod, "cases"):
         cs = mod.cases(tier, run.rng, run)
         impl_out, _ = run.differential(cs, mod.judge, getattr(mod, "nontrivial", None), known_region=getattr(mod, "known_region", None),
